@@ -367,6 +367,7 @@ func (g *G) stmt(c ctx) []Stmt {
 		add(1+3*we, func() []Stmt { return g.callbackThrows(c) })
 		add(1+2*ws, func() []Stmt { return g.declOnlyBlock(c) })
 		add(1+2*ws, func() []Stmt { return g.selfNameFunc() })
+		add(1+3*ws, func() []Stmt { return g.shadowAfterFirstUse() })
 		add(1+3*we, func() []Stmt { return g.recursiveDefers() })
 		add(1+wc, func() []Stmt { return g.returnElementOrder() })
 	}
@@ -452,6 +453,86 @@ func (g *G) selfNameFunc() []Stmt {
 		&Assign{LHS: []Expr{&Name{N: fn}}, RHS: []Expr{&FuncLit{Params: []string{"q0"}, Body: []Stmt{&ExprStmt{X: g.p()}, &Return{Exprs: []Expr{&IntLit{V: 100}}}}}}},
 		&ExprStmt{X: &Call{Fn: "rd", Args: []Expr{&StrLit{V: alias}, &Call{Fn: alias, Args: []Expr{&IntLit{V: 2}}}}}},
 	}
+}
+
+// shadowAfterFirstUse: a function value that has already read a free name from an outer scope
+// is used again after a nearer binding of that name was made, in its defining scope or in a
+// scope between that and the old binding: every use resolves the name afresh (nearest binding)
+func (g *G) shadowAfterFirstUse() []Stmt {
+	g.feat("shadow-after-first-use")
+	n := g.pick(g.pool)
+	fn := g.fresh("sh")
+	params, args := []string{}, []Expr{}
+	variadic := false
+	switch g.R.Intn(4) {
+	case 1:
+		params, args = []string{"q0"}, []Expr{&IntLit{V: 1}}
+	case 2:
+		params, args, variadic = []string{"q0", "rest"}, []Expr{&IntLit{V: 1}, &IntLit{V: 2}}, true
+	}
+	read := Expr(&Coalesce{L: &Name{N: n}, R: &IntLit{V: -7}})
+	var body []Stmt
+	switch g.R.Intn(3) {
+	case 0:
+		body = []Stmt{&Return{Exprs: []Expr{read}}}
+	case 1:
+		// the read sits in a nested block of the body
+		body = []Stmt{&If{Cond: &BoolLit{V: true}, Then: []Stmt{&Return{Exprs: []Expr{read}}}}, &Return{Exprs: []Expr{&IntLit{V: -1}}}}
+	default:
+		// read, assign (hits the nearest binding), read again
+		body = []Stmt{&ExprStmt{X: &Call{Fn: "rd", Args: []Expr{&StrLit{V: "in"}, read}}},
+			&Assign{LHS: []Expr{&Name{N: n}}, RHS: []Expr{&Binary{Op: "+", L: read, R: &IntLit{V: 1}}}},
+			&Return{Exprs: []Expr{&Name{N: n}}}}
+	}
+	var mk Stmt
+	if g.R.Intn(2) == 0 {
+		mk = &ExprStmt{X: &FuncLit{Name: fn, Params: params, Variadic: variadic, Body: body}}
+	} else {
+		mk = &Assign{LHS: []Expr{&Name{N: fn}}, RHS: []Expr{&FuncLit{Params: params, Variadic: variadic, Body: body}}}
+	}
+	use := func(tag string) Stmt {
+		return &ExprStmt{X: &Call{Fn: "rd", Args: []Expr{&StrLit{V: tag}, &Call{Fn: fn, Args: args}}}}
+	}
+	rdn := func(tag string) Stmt {
+		return &ExprStmt{X: &Call{Fn: "rd", Args: []Expr{&StrLit{V: tag}, &Coalesce{L: &Name{N: n}, R: &StrLit{V: "<undef>"}}}}}
+	}
+	bind := &VarStmt{Names: []string{n}, Exprs: []Expr{&IntLit{V: int64(60 + g.R.Intn(9))}}}
+	var inner []Stmt
+	if g.R.Intn(2) == 0 {
+		// the nearer binding is made in the defining scope itself
+		inner = []Stmt{mk, use("u1"), bind, use("u2"), rdn("n1"), use("u3")}
+	} else {
+		// the function is created one block deeper (the holder lives in the middle scope):
+		// the new binding lies between the defining scope and the old binding
+		hold := Stmt(&VarStmt{Names: []string{fn}, Exprs: []Expr{&NilLit{}}})
+		var deep Stmt
+		mkA := &Assign{LHS: []Expr{&Name{N: fn}}, RHS: []Expr{&FuncLit{Params: params, Variadic: variadic, Body: body}}}
+		switch g.R.Intn(3) {
+		case 0:
+			deep = &If{Cond: &BoolLit{V: true}, Then: []Stmt{mkA, use("u1")}}
+		case 1:
+			deep = &ForIn{Vars: []string{"it"}, X: &ListLit{Elems: []Expr{&IntLit{V: 1}}}, Body: []Stmt{mkA, use("u1")}}
+		default:
+			deep = &Try{Body: []Stmt{mkA, use("u1")}, Catch: []Stmt{&ExprStmt{X: g.p()}}}
+		}
+		inner = []Stmt{hold, deep, bind, use("u2"), rdn("n1"), use("u3")}
+	}
+	var outer Stmt
+	switch g.R.Intn(3) {
+	case 0:
+		outer = &If{Cond: &BoolLit{V: true}, Then: inner}
+	case 1:
+		w := g.fresh("sw")
+		return []Stmt{&Assign{LHS: []Expr{&Name{N: n}}, RHS: []Expr{&IntLit{V: int64(10 + g.R.Intn(9))}}},
+			&ExprStmt{X: &FuncLit{Name: w, Body: append(inner, &Return{Exprs: []Expr{&IntLit{V: 0}}})}},
+			&ExprStmt{X: &Call{Fn: w}}, rdn("n2"),
+			// a second invocation starts from the outer binding again
+			&ExprStmt{X: &Call{Fn: w}}, rdn("n3")}
+	default:
+		outer = &CFor{Init: &Assign{LHS: []Expr{&Name{N: "i9"}}, RHS: []Expr{&IntLit{V: 0}}},
+			Cond: &Binary{Op: "<", L: &Name{N: "i9"}, R: &IntLit{V: 2}}, Post: &OpAssign{Target: &Name{N: "i9"}, Op: "+"}, Body: inner}
+	}
+	return []Stmt{&Assign{LHS: []Expr{&Name{N: n}}, RHS: []Expr{&IntLit{V: int64(10 + g.R.Intn(9))}}}, outer, rdn("n2")}
 }
 
 // recursiveDefers: a function that defers and re-enters itself, used several times: every
